@@ -4,7 +4,7 @@
         ExtenderHook                          -> hook
         Extender (priority, wraps, __call__)  -> extender, ext_call (the *recording* extenders of harness/c20.py)
         _CompositeExtender.__init__           -> composite_order  (sorted by priority; Python's sorted is stable)
-        _CompositeExtender.__call__           -> wrapper (make_wrapper incl. try/except + fallback), chain, composite_call
+        _CompositeExtender.__call__           -> wrapper (make_wrapper incl. tracked_inner, try/except, fallback), chain, composite_call
      mloda/core/abstract_plugins/compute_framework.py
         ComputeFramework.get_function_extender -> matching, dispatch, run_wrapped  (0 / 1 / >= 2 matching extenders)
         run_calculate_feature / run_validate_input_features / run_validate_output_features
@@ -59,13 +59,28 @@ Definition ext_call {A} (e : extender) (inner : comp A) : comp A :=
       end
   end.
 
-(* make_wrapper(ext, inner_func):
-     try: return ext.__call__(inner_func, ..)
-     except Exception as e: logging.error(..); return inner_func(..)                      *)
+(* make_wrapper(ext, inner_func)  [code after fix 50d7ec2: the wrapper remembers what the wrapped call did]
+     state = {}
+     def tracked_inner(..): try: result = inner_func(..) except Exception as err: state["error"] = err; raise
+                            state["result"] = result; return result
+     try: return ext.__call__(tracked_inner, ..)
+     except Exception as e:
+         if "error" in state: raise state["error"]        (the wrapped call itself failed: re-raised, not logged)
+         logging.error(..)
+         if "result" in state: return state["result"]     (extender failed after calling through: result reused)
+         return inner_func(..)                            (extender failed before calling through)
+   A recording extender calls through at most once; it does so unless it raises before. *)
+Definition calls_through (e : extender) : bool := match beh e with RaiseBefore => false | _ => true end.
 Definition wrapper {A} (e : extender) (inner : comp A) : comp A :=
   match ext_call e inner with
   | (t, Ok a) => (t, Ok a)
-  | (t, Err _) => (t ++ Logged (eid e) :: fst inner, snd inner)
+  | (t, Err _) =>
+      if calls_through e then
+        match snd inner with
+        | Err y => (t, Err y)
+        | Ok a => (t ++ [Logged (eid e)], Ok a)
+        end
+      else (t ++ Logged (eid e) :: fst inner, snd inner)
   end.
 
 (* for extender in reversed(self.extenders): wrapped_func = make_wrapper(extender, wrapped_func) *)
